@@ -507,6 +507,19 @@ def _neg_cost(e: ast.expr) -> int:
     return 0
 
 
+def _int_typed(e) -> bool:
+    """Syntactically an integer: int constants, len(...), x.shape[k], sums / differences / products of those."""
+    if isinstance(e, ast.Constant):
+        return type(e.value) is int
+    if isinstance(e, ast.Call) and isinstance(e.func, ast.Name) and e.func.id == "len":
+        return True
+    if isinstance(e, ast.Subscript) and isinstance(e.value, ast.Attribute) and e.value.attr == "shape":
+        return True
+    if isinstance(e, ast.BinOp) and isinstance(e.op, (ast.Add, ast.Sub, ast.Mult)):
+        return _int_typed(e.left) and _int_typed(e.right)
+    return False
+
+
 def _push_not(e: ast.expr) -> ast.expr:
     """Negation of a test, pushed inwards (De Morgan; == / in / is flipped; ordering comparisons are
     NOT flipped: `not a < b` is not `a >= b` for NaN)."""
@@ -520,6 +533,10 @@ def _push_not(e: ast.expr) -> ast.expr:
         t = type(e.ops[0])
         if t in swap:
             return ast.Compare(left=e.left, ops=[swap[t]()], comparators=e.comparators)
+        order_neg = {ast.Lt: ast.GtE, ast.LtE: ast.Gt, ast.Gt: ast.LtE, ast.GtE: ast.Lt}
+        if t in order_neg and _int_typed(e.left) and _int_typed(e.comparators[0]):
+            # integers are totally ordered: not a <= b  ==  a > b
+            return ast.Compare(left=e.left, ops=[order_neg[t]()], comparators=e.comparators)
     if (isinstance(e, ast.Call) and isinstance(e.func, ast.Name) and e.func.id in ("all", "any") and len(e.args) == 1 and not e.keywords
             and isinstance(e.args[0], (ast.GeneratorExp, ast.ListComp))):
         # not all(P for ..) == any(not P for ..)
@@ -959,6 +976,9 @@ class _ExprCanon(ast.NodeTransformer):
                 t = type(inner.ops[0])
                 if t in swap:
                     return self._test(ast.Compare(left=inner.left, ops=[swap[t]()], comparators=inner.comparators))
+                order_neg = {ast.Lt: ast.GtE, ast.LtE: ast.Gt, ast.Gt: ast.LtE, ast.GtE: ast.Lt}
+                if t in order_neg and _int_typed(inner.left) and _int_typed(inner.comparators[0]):
+                    return self._test(ast.Compare(left=inner.left, ops=[order_neg[t]()], comparators=inner.comparators))
             inner2 = self._test(inner)
             if _dump(inner2) != _dump(inner):
                 return self._test(ast.UnaryOp(op=ast.Not(), operand=inner2))
@@ -1307,6 +1327,34 @@ def _dict_forward(fn):
     return fn
 
 
+def _enumerate_start(fn):
+    """for i, x in enumerate(L, start=k)  ->  for i, x in enumerate(L)  with i replaced by i + k."""
+    for n in [fn] + list(_walk_no_nested(fn)):
+        if not (isinstance(n, ast.For) and isinstance(n.iter, ast.Call) and isinstance(n.iter.func, ast.Name) and n.iter.func.id == "enumerate"):
+            continue
+        c = n.iter
+        start = None
+        if len(c.args) == 2 and not c.keywords:
+            start = c.args[1]
+        elif len(c.args) == 1 and len(c.keywords) == 1 and c.keywords[0].arg == "start":
+            start = c.keywords[0].value
+        if start is None or not (isinstance(start, ast.Constant) and type(start.value) is int and start.value != 0):
+            continue
+        if not (isinstance(n.target, ast.Tuple) and len(n.target.elts) == 2 and isinstance(n.target.elts[0], ast.Name)):
+            continue
+        i = n.target.elts[0].id
+        if any(isinstance(x, ast.Name) and x.id == i and isinstance(x.ctx, ast.Store) for st in n.body for x in ast.walk(st)):
+            continue
+        for st in n.body:
+            for x in list(ast.walk(st)):
+                if isinstance(x, ast.Name) and x.id == i and isinstance(x.ctx, ast.Load):
+                    _replace_node(st, x, ast.BinOp(left=ast.Name(id=i, ctx=ast.Load()), op=ast.Add(), right=ast.Constant(value=start.value)))
+        c.args = [c.args[0]]
+        c.keywords = []
+    ast.fix_missing_locations(fn)
+    return fn
+
+
 def _items_to_keys(fn):
     """for k, v in D.items()  ->  for k in D  with v replaced by D[k]  (comprehensions, and loops whose
     body does not write D): one normal form for the two spellings."""
@@ -1357,6 +1405,7 @@ def _items_to_keys(fn):
 def expressions(fn):
     fn = _copy_overwrite(fn)
     fn = _items_to_keys(fn)
+    fn = _enumerate_start(fn)
     fn = _dict_forward(fn)
     fn = _ExprCanon(_list_names(fn)).visit(fn)
     # P = P
